@@ -635,6 +635,39 @@ func init() {
 					}
 				}
 			})
+			// structure that only decoding reveals: a drive letter, a dot segment, a slash or a host dot written with one or more
+			// levels of percent-encoding, in file / special / non-special URLs. The repeated-decoding step writes the decoded
+			// text back through the setters (a state-override run of the parser), the second canonicalization reads it with a
+			// full parse: both must normalise alike or the first output is not a fixed point.
+			{
+				schemes := []string{"http", "file", "sc", "ftp", "wss"}
+				hosts := []string{"h", "h.example", "H%2Eexample", "h%252eexample", "1.2.3.4", "0x7f%2E1", "[::1]", ""}
+				seg1 := []string{"C|", "C%7C", "c%257C", "C%7c", "C:", "C%3A", "c%253a", "%43%7C", "%2e%2e", "%252e%252E", ".%2e", "%2E", "a%2fb", "a%252Fb", "a%5cb", "a%255Cb", "%2f", "%5C", "x", "", "%3f", "%2523", "%09", "%2509", "%20", "a%2520"}
+				seg2 := []string{"", "dir", "..", "%2e", "%252e%252e", "D|", "d%7C", "%2f"}
+				tails := []string{"", "/file.txt", "/file.txt?k=v#f", "?C%7C=%2e%2e", "#%43%7C"}
+				var sprofs []*Prof
+				for _, n := range []string{"repeated", "repeated+rmFrag", "repeated+sortKeys", "repeated+rmPort+rmUser", "repeated+defFile", "repeated+skipDrive", "repeated+collapse", ""} {
+					sprofs = append(sprofs, profFromDesc(n))
+				}
+				sprofs = append(sprofs, predefinedProfiles...)
+				n := len(schemes) * len(hosts) * len(seg1) * len(seg2)
+				c.Pool.Run(n, func(d *Driver, i int) {
+					sc, h := schemes[i%len(schemes)], hosts[i/len(schemes)%len(hosts)]
+					a, b := seg1[i/(len(schemes)*len(hosts))%len(seg1)], seg2[i/(len(schemes)*len(hosts)*len(seg1))]
+					if h == "" && sc != "file" && sc != "sc" {
+						return
+					}
+					in := sc + "://" + h + "/" + a
+					if b != "" {
+						in += "/" + b
+					}
+					in += tails[i%len(tails)]
+					for k := 0; k < 3; k++ {
+						p := sprofs[(i+k*5)%len(sprofs)]
+						idem(d, p, in, "revealed-structure", i)
+					}
+				})
+			}
 			// escapes nested arbitrarily deep (the decoding loop must run to its fixed point, however many rounds that takes)
 			var deepProfs []*Prof
 			deepProfs = append(deepProfs, exp...)
@@ -673,6 +706,36 @@ func init() {
 					sort.Strings(names)
 				}
 				fullProfs = append(fullProfs, profFromDesc(strings.Join(names, "+")))
+			}
+			// the dot is an unreserved character: a host dot written %2E is the same host. GoogleSafeBrowsing and Semantic also
+			// remove leading / trailing host dots and collapse runs of them; whichever way such a dot is spelled the result is
+			// the one for the literal spelling (and for the cleaned host)
+			{
+				type hv struct{ variants []string }
+				groups := []hv{
+					{[]string{"www.example.com", "www.example.com.", "www.example.com%2E", "www.example.com%2e", "www.example.com..", "www.example.com.%2E", "www.example.com%2E%2e", ".www.example.com", "%2Ewww.example.com", "www..example.com", "www.%2Eexample.com", "www%2E%2Eexample.com", "www%2Eexample%2ecom", "WWW.Example.COM%2E"}},
+					{[]string{"a-1.b", "a-1.b.", "a-1%2Eb", "a-1%2eb%2E", "A-1..B", "%2e%2Ea-1.b"}},
+					{[]string{"1.2.3.4", "1.2.3.4.", "1.2.3.4%2E", "1%2E2.3.4", "1.2.3%2e4%2E", "1..2.3.4"}},
+				}
+				rests := []string{"/a/b?k=v", "", ":80/", "/#"}
+				profs := []*Prof{predefinedProfiles[2], predefinedProfiles[3]}
+				c.Pool.Run(len(groups)*len(rests)*len(profs), func(d *Driver, i int) {
+					g, rest, p := groups[i%len(groups)], rests[i/len(groups)%len(rests)], profs[i/(len(groups)*len(rests))]
+					var first Obs
+					for k, h := range g.variants {
+						in := "http://" + h + rest
+						o := c.cmpProf(d, p, nil, in, allButVerrs, "host-dots", i)
+						if k == 0 {
+							first = o
+							continue
+						}
+						if diff := obsEq(first, o, urlFieldsOnly); diff != "" {
+							c.Report(Finding{Class: "violation", What: fmt.Sprintf("two spellings of a host dot canonicalize differently: %q -> %s but %q -> %s (%s)", "http://"+g.variants[0]+rest, first.String(), in, o.String(), diff),
+								Case: Case{Kind: "cparse", Cfg: p.Desc, Input: in, Family: "host-dots", Index: i}, Host: first.Fields0(fHostname)})
+							break
+						}
+					}
+				})
 			}
 			pair := func(d *Driver, p *Prof, o spellOpts, fam string, i int, r *Rng) {
 				w := r.webURL()
@@ -966,6 +1029,40 @@ func init() {
 						cs2 := cs
 						cs2.Cfg, cs2.Input = dprof.Desc, din
 						c.Report(Finding{Class: "violation", What: fmt.Sprintf("default-scheme %q on %q: %s (the definition gives %s)", dsNames[k], din, diff, want.String()), Case: cs2})
+					}
+					// the same through ParseRef: the default scheme is for the BASE text when it fails only for lack of a scheme; a
+					// failure of the resolution itself (e.g. a relative reference against a base with an opaque path, which the
+					// parser reports with the same error type) is not to be repaired by re-reading a base that parsed
+					{
+						rb := r.Pick([]string{"mailto:user@example.com", "localhost:8080/app", "data:text/plain,x", "sc:opaque?q", "example.com/dir/", "//h/p", "h", "http://h/d/", "sc://h/d/f", "1.2.3.4:80", "about:blank", "a:b/c", "", "/rooted"})
+						if r.Chance(1, 4) {
+							rb = r.base()
+						}
+						ref := r.Pick([]string{"inbox", "index.html", "", "#f", "?q", "./x", "../y", "//other/z", "/abs", "x:y", "http://abs/"})
+						if r.Chance(1, 4) {
+							ref = r.relRef()
+						}
+						or := c.cmpProf(d, dprof, &rb, ref, allButVerrs, "default-scheme:ParseRef", i)
+						var wantR Obs
+						{
+							bo := implParse(dp, nil, rb)
+							bt := rb
+							if bo.Kind == "E" && strings.HasPrefix(bo.Err, "21:") {
+								bt = dsNames[k] + "://" + rb
+								bo = implParse(dp, nil, bt)
+							}
+							if bo.Kind == "U" {
+								wantR = implParse(dp, &bt, ref)
+							} else {
+								wantR = bo
+							}
+						}
+						if rb != "" || true {
+							if diff := obsEq(wantR, or, urlFieldsOnly); diff != "" {
+								c.Report(Finding{Class: "violation", What: fmt.Sprintf("default-scheme %q, ParseRef(%q, %q): %s (the definition gives %s)", dsNames[k], rb, ref, diff, wantR.String()),
+									Case: Case{Kind: "cref", Cfg: dprof.Desc, Base: &rb, Input: ref, Family: "default-scheme:ParseRef", Index: i}})
+							}
+						}
 					}
 				}
 				// sort-query only reorders
